@@ -45,9 +45,9 @@ fn main() {
     let k = known.clone();
     ck.run(Section::pbt("protocol-cache", tier.pick(3000, 300_000), proto::protocache_strategy, move |c| proto::check_protocache(c, &k)).shards(8));
     let k = known.clone();
-    ck.run(Section::pbt("ribbit-query", tier.pick(3000, 200_000), proto::query_strategy, move |c| proto::check_query(c, &k)).shards(12));
+    ck.run(Section::pbt("ribbit-query", tier.pick(2000, 100_000), proto::query_strategy, move |c| proto::check_query(c, &k)).shards(12));
     let k = known.clone();
-    ck.run(Section::pbt("cdn-client", tier.pick(4000, 300_000), proto::cdn_strategy, move |c| proto::check_cdn(c, &k)).shards(12));
+    ck.run(Section::pbt("cdn-client", tier.pick(3000, 150_000), proto::cdn_strategy, move |c| proto::check_cdn(c, &k)).shards(12));
     let k = known.clone();
     ck.run(Section::pbt("open-installation", tier.pick(3000, 300_000), storage::install_strategy, move |c| storage::check_install(c, &k)).shards(8));
     let k = known.clone();
